@@ -8,17 +8,21 @@ from harness.runner import BCheck
 from scenario import bam as BAM, phasing as PH, vcf as V
 
 LEVEL = "exploration"
-LEVEL_TEXT = ("Deductive part (vcgen/z3, all inputs): length_of_homopolymer returns min(threshold, length of the maximal run of the first base) (contracts/haplotagphase_py.py). "
+LEVEL_TEXT = ("Deductive part (vcgen/z3, all inputs): length_of_homopolymer returns min(threshold, length of the maximal run of the first base); compute_votes builds exactly the "
+              "quality-weighted votes per (variant position, phase set, haplotype xor allele) over all validly tagged reads (every entry equals the ghost sum W over the whole "
+              "input, a non-zero sum has an entry, both haplotype keys of a phase set are entered together, no KeyError); best_candidate returns a key of the dict with its "
+              "score, no key scores higher, and the share lies in [0, 1] (needs non-negative scores with a positive one: otherwise it divides by zero) "
+              "(contracts/haplotagphase_py.py). consensus and run_haplotagphase are not under contract. "
               "Pipeline property over BAM files: bounded stand-in. Generated diploid scenarios (error-free reads, SNV/MNP/indel variants, several phase sets with random "
               "haplotype order, no read overlapping two sets) are run through haplotag -> (full or indel-only) unphase -> haplotagphase with default thresholds; every "
               "variant newly phased must carry exactly the genotype order and phase set it had in the tagging VCF, and variants already phased in the haplotagphase "
-              "input must come out unchanged. The lemma over the contracts of compute_votes/best_candidate/consensus (all vote mass on one key) is argued in DESIGN.md.")
+              "input must come out unchanged. ")
 LEVEL_NOTE = "Seeded sampling. Trusted: scenario generator, independent decoder."
-TECHNIQUE = "bounded runtime contract on the pipeline run_haplotag -> unphase -> run_haplotagphase over generated BAM/VCF scenarios"
+TECHNIQUE = "contract-based deductive verification of the voting functions of haplotagphase.py (vcgen, z3) + bounded runtime contract on the pipeline run_haplotag -> unphase -> run_haplotagphase over generated BAM/VCF scenarios"
 D_MODULES = ["contracts.haplotagphase_py"]
 EXPLANATION = LEVEL_TEXT
 TRUSTED_BASE = ["scenario/bam.py", "scenario/phasing.py decoder"]
-ASSUMPTIONS = ["thresholds at their defaults; reads never overlap two phase sets (the statement's proviso)"]
+ASSUMPTIONS = ["best_candidate: scores are non-negative and one is positive (qualities are; a position whose votes all have quality 0 would divide by zero)", "consensus / run_haplotagphase are covered by the bounded pipeline check only", "thresholds at their defaults; reads never overlap two phase sets (the statement's proviso)"]
 
 
 def partial_unphase(text, only_indels):
@@ -41,14 +45,14 @@ class Pipeline(BCheck):
     name = "C17.haplotag-haplotagphase"
     contract = ("after haplotag with phased VCF P, haplotagphase on the (partly) unphased VCF phases a variant only with the allele order and phase set it has in P, "
                 "and leaves variants that are already phased in its input untouched")
-    rule = ("seeded diploid scenarios, 1 sample, 4-9 variants of mixed type, 1-3 contiguous phase sets, reads that span two sets removed; haplotagphase input either fully "
+    rule = ("seeded diploid scenarios, 1 sample, 4-9 variants of mixed type, 1-3 contiguous phase sets, reads that span two sets removed, a quarter of the runs with barcodes (BX) shared by reads farther apart than the linked-read cutoff; haplotagphase input either fully "
             "unphased or with only the indels/MNPs unphased; non-trivial = at least one variant newly phased")
     budget_s = {"quick": 150, "thorough": 1500}
     chunk = 4
 
     def inputs(self, tier, rng):
         for i in range(1500 if tier == "quick" else 20000):
-            yield dict(seed=rng.getrandbits(48), partial=(i % 2 == 1), sparse=(i % 3 == 0), straddle=(i % 4 == 3), thin=(i % 5 != 0))
+            yield dict(seed=rng.getrandbits(48), partial=(i % 2 == 1), sparse=(i % 3 == 0), straddle=(i % 4 == 3), thin=(i % 5 != 0), bx=(i % 4 == 2))
 
     def check(self, inp):
         from whatshap.cli.haplotag import run_haplotag
@@ -111,12 +115,29 @@ class Pipeline(BCheck):
             if len(sets) <= 1 or inp.get("straddle"):
                 keep.append(rd)
         sc["reads"] = keep
+        cutoff = 50000
+        if inp.get("bx"):
+            # linked reads: pairs of reads that share a barcode but start farther apart than the linked-read cutoff (in either order) are two read clouds;
+            # each read is tagged on its own evidence, so the tags -- and what haplotagphase derives from them -- are those of the run without barcodes
+            cutoff = 5
+            plain = list(sc["reads"])
+            r.shuffle(plain)
+            k = 0
+            while len(plain) >= 2 and k < 10:
+                a_ = plain.pop()
+                partner = [x for x in plain if x["contig"] == a_["contig"] and abs(x["start"] - a_["start"]) > cutoff + 1]
+                if not partner:
+                    continue
+                plain.remove(partner[0])
+                for x in (a_, partner[0]):
+                    x["tags"] = list(x.get("tags", [])) + [("BX", "BXP%d" % k)]
+                k += 1
         d = tempfile.mkdtemp(prefix="c17_")
         try:
             paths = BAM.materialize(sc, d)
             vcf = BAM.write_indexed_vcf(vcf_text, os.path.join(d, "phased.vcf.gz"))
             tagged = os.path.join(d, "tagged.bam")
-            run_haplotag(vcf, paths["bam"], output=tagged, reference=paths["fasta"])
+            run_haplotag(vcf, paths["bam"], output=tagged, reference=paths["fasta"], linked_read_distance_cutoff=cutoff)
             pysam.index(tagged)
             unph_text = partial_unphase(vcf_text, only_indels=inp["partial"])
             unph = BAM.write_indexed_vcf(unph_text, os.path.join(d, "input.vcf.gz"))
